@@ -166,6 +166,8 @@ def gen_spec(rng):
         for _ in range(rng.choice([1, 2, 2, 3])):
             fa, fb_ = rng.sample(range(len(feeders)), 2)
             ties.append({"a": [fa, rng.randrange(len(feeders[fa]["parent"]))], "b": [fb_, rng.randrange(len(feeders[fb_]["parent"]))]})
+            if len(ties) % 2 == 1 or rng.random() < 0.3:
+                ties[-1]["open_at_build"] = True       # described as normally open when its disconnectors are built
     spec["tie"] = None
     spec["ties"] = ties
     return spec
